@@ -46,33 +46,33 @@ theorem MOV_B_LD_IND (op : BitVec 16) (st st' : Cpu) (c : BitVec 8) (i : Spec.In
   have h3 : (nib op 3).ule 7#8 = true := by (simp only [nib]; bv_decide)
   simp only [movErn, hdir, if_true, getAddrErn, readMem, bind_ok, pure_ok, readRnL_ok _ _ h3] at h
   split at h
-  · rename_i v s1 hb
-    split at hb
-    case h_2 => simp at hb
-    case h_3 => simp at hb
-    rename_i vb sb hbb
-    simp only [Res.ok.injEq] at hb
-    obtain ⟨hv, hs1⟩ := hb
-    subst hv; subst hs1
-    obtain ⟨e1, e2, _⟩ := busRead_peek _ _ _ _ hbb
-    subst e1
-    simp only [writeRn, movPccSz, movPcc, writeRnB_nib, bind_ok, pure_ok, changeCcr_ok, writeCcr_zero, iBase, Sz.dataKind,
-      Sz.dataCount] at h
-    movcost_subst
-    simp only [specRegCcr, Spec.exec, Spec.getReg, Spec.setReg, Spec.movFlags, Spec.eaOf, Spec.eaRegs, getR8_eq, setR8_eq,
-      getER_eq, loadBE_one, Spec.Sz.bytes]
-    have hidx : (BitVec.setWidth 8 (BitVec.setWidth 3 (BitVec.extractLsb' 4 3 op))) = nib op 3 := by
-      simp only [nib]; bv_decide
-    rw [hidx]
-    rw [addr_toNat] at e2
-    rw [← e2]
-    generalize sb.regs = r; generalize sb.ccr = cc
-    congr 1
-    all_goals (
-      simp only [nib, rdB, wrB, getEr, setEr, shOf, Spec.nzClearV, Spec.setFlag, changeCcrV, Spec.z4, Spec.zx8, Spec.lo3]
-      bv_decide)
-  · simp at h
-  · simp at h
+  case h_2 => simp at h
+  case h_3 => simp at h
+  rename_i v s1 hb
+  split at hb
+  case h_2 => simp at hb
+  case h_3 => simp at hb
+  rename_i vb sb hbb
+  simp only [Res.ok.injEq] at hb
+  obtain ⟨hv, hs1⟩ := hb
+  subst hv; subst hs1
+  obtain ⟨e1, e2, _⟩ := busRead_peek _ _ _ _ hbb
+  subst e1
+  simp only [writeRn, movPccSz, movPcc, writeRnB_nib, bind_ok, pure_ok, changeCcr_ok, writeCcr_zero, iBase, Sz.dataKind,
+    Sz.dataCount] at h
+  movcost_subst
+  simp only [specRegCcr, Spec.exec, Spec.getReg, Spec.setReg, Spec.movFlags, Spec.eaOf, Spec.eaRegs, getR8_eq, setR8_eq,
+    getER_eq, loadBE_one, Spec.Sz.bytes]
+  have hidx : (BitVec.setWidth 8 (BitVec.setWidth 3 (BitVec.extractLsb' 4 3 op))) = nib op 3 := by
+    simp only [nib]; bv_decide
+  rw [hidx]
+  rw [addr_toNat] at e2
+  rw [← e2]
+  generalize sb.regs = r; generalize sb.ccr = cc
+  congr 1
+  all_goals (
+    simp only [nib, rdB, wrB, getEr, setEr, shOf, Spec.nzClearV, Spec.setFlag, changeCcrV, Spec.z4, Spec.zx8, Spec.lo3]
+    bv_decide)
 
 /-- (regs, ccr, bus) the Spec prescribes for an instruction that may store to memory -/
 def specRegCcrBus (i : Spec.Instr) (st : Cpu) : Regs × BitVec 8 × Bus :=
